@@ -174,14 +174,21 @@ Theorem C14_totality_at_quiescence : forall n t skip H toolong byz, 3 * t < n ->
 Proof. exact totality_at_quiescence. Qed.
 Print Assumptions C14_totality_at_quiescence.
 
+(* ... and WITH channel switches the delivery clause is FALSE for the code as it is (finding F10): n = 4, t = 1, faulty P3;
+   all protocol messages between honest parties handed over, deliver buffers drained, every honest party on the FIFO channel 7;
+   P0 has delivered slot (7,3,1) -- fetched through the out-of-order handler, answered by P1 and P2 while they sat on channel 8
+   (the l-retrieve handler compares s with deliver_s of the responder's current channel, not of the tag's channel) and by P3 --
+   and P1 can never deliver it.  Witness RbcBracha.cross_events, checked by vm_compute. *)
+Theorem C14_totality_channel_switch_refuted : ~ delivery_at_quiescence_statement 4 1 0 Hodd (fun _ _ => false) byz3.
+Proof. exact totality_with_switches_refuted. Qed.
+Print Assumptions C14_totality_channel_switch_refuted.
+
 (* TOTALITY, the part that is proved (`_partial`): once every r-ready has been handed over to its honest receivers
    (ready_quiescent: the first-time filter ready[l][tag] is set for every r-ready (l -> q) in the network), a digest accepted
    for a slot by ONE honest party (dbar: 2t+1 r-ready -- the precondition of every delivery on the Bracha path) is accepted
    by EVERY honest party: t+1 honest readys reach everybody, everybody amplifies, everybody collects n-t >= 2t+1.
-   This part holds with channel switches and every fifo_skip; the full delivery clause is proved above for switch-free runs;
-   for runs with channel switches it is stated as RbcBracha.delivery_at_quiescence_statement and NOT proved (missing: the
-   per-channel version of invariant DL -- delivered slots of a channel = 1 .. its saved/current counter - 1 -- across
-   setID / recoverID / unsetID). *)
+   This part holds with channel switches and every fifo_skip; the full delivery clause is proved above for switch-free runs
+   and refuted above for runs with channel switches (finding F10). *)
 Theorem C14_totality_digest_partial : forall n t skip H toolong byz, 3 * t < n -> 0 <= t ->
   forall B, Z.of_nat (length B) <= t -> (forall l, byz l = true -> In l B) ->
   (forall tg x, toolong tg (H x) = false) ->
@@ -257,3 +264,7 @@ Proof. exact done_run_quiescent. Qed.
 Example C14_nonvacuous_quiescence_log :
   glog done_run = [(0, (0, 0, 1), 42); (1, (0, 0, 1), 42); (2, (0, 0, 1), 42); (3, (0, 0, 1), 42)].
 Proof. exact done_run_log. Qed.
+
+Example C14_nonvacuous_cross_log :
+  glog cross_run = [(1, (8, 3, 1), 50); (2, (8, 3, 1), 50); (0, (7, 3, 1), 51); (0, (7, 3, 2), 52)].
+Proof. exact cross_run_log. Qed.
